@@ -29,7 +29,9 @@ Metrics(e) ==
      \cup (IF HasVals(D, "n1") /\ (a.maxnone \/ a.max # MaxV(D, "n1")) THEN {"C16_max"} ELSE {})
      \cup (IF ~HasVals(D, "n1") /\ ~(a.minnone /\ a.maxnone) THEN {"C16_min_max_of_nothing"} ELSE {})
      \cup (IF NVals(D, "n1") > 0 /\ (a.avgnan \/ ~AvgOK(a.avg1000, Sum(D, "n1"), NVals(D, "n1"))) THEN {"C16_avg"} ELSE {})
-     \cup (IF WTot(D, "n1", "n2") > 0 /\ (a.wavgnan \/ ~AvgOK(a.wavg1000, WSum(D, "n1", "n2"), WTot(D, "n1", "n2"))) THEN {"C16_weighted_avg"} ELSE {})
+     \cup (IF WTot(D, "n1", "n2") # 0 /\ (a.wavgnan \/ ~AvgOK(a.wavg1000, WSum(D, "n1", "n2"), WTot(D, "n1", "n2"))) THEN {"C16_weighted_avg"} ELSE {})
+     \* weights that cancel out (or no weighted value at all): there is no average, the engine must not invent a number
+     \cup (IF WTot(D, "n1", "n2") = 0 /\ ~a.wavgnan THEN {"C16_weighted_avg_of_zero_weight"} ELSE {})
      \cup (IF a.card # Cardinality(AllVals(D, "k1")) THEN {"C16_cardinality"} ELSE {})
      \cup (IF HasVals(D, "n1") /\ ~a.qerr /\
               (\E i \in DOMAIN a.q1000 : a.q1000[i] < MinV(D, "n1") * 1000 \/ a.q1000[i] > MaxV(D, "n1") * 1000)
@@ -67,6 +69,9 @@ Ranges(e) ==
      \cup (IF \E i \in DOMAIN R : LET b == RangeBucket(D, "n1", R[i].lo, R[i].hi)
                                   IN IF HasVals(b, "n1") THEN R[i].max1none \/ R[i].max1 # MaxV(b, "n1") ELSE ~R[i].max1none
            THEN {"C16_range_nested_max"} ELSE {})
+     \* a cardinality nested in the buckets: the distinct keyword values of THAT bucket's documents
+     \cup (IF \E i \in DOMAIN R : "card" \in DOMAIN R[i] /\ R[i].card # Cardinality(AllVals(RangeBucket(D, "n1", R[i].lo, R[i].hi), "k1"))
+           THEN {"C16_range_nested_cardinality"} ELSE {})
      \cup (IF \E i \in DOMAIN T : T[i].count # Len(RangeBucket(D, "t1", T[i].lo, T[i].hi)) THEN {"C16_date_range_bucket_count"} ELSE {})
      \* nested metrics over a field that nothing else in the request mentions
      \cup (IF \E i \in DOMAIN R : R[i].sum3 # Sum(RangeBucket(D, "n1", R[i].lo, R[i].hi), "n3") THEN {"C16_range_nested_sum_of_private_field"} ELSE {})
